@@ -445,6 +445,24 @@ def execute(schedule) -> Result:
     return res
 
 
+def _singular_S(H, S, P_in, pmax_run):
+    """domain guard shared by single updates and updates inside ticks: S = H P H^T + Q is numerically singular, the small
+    difference of large terms, or has COLLAPSED relative to the scale of the problem (an exact, zero-noise reading fused into a
+    covariance that already knows it: P and S are both rounding residue and the gain is noise divided by noise)"""
+    if not S.size:
+        return False
+    if not np.all(np.isfinite(S)) or float(np.linalg.cond(S)) > ekfw.GUARD_COND:
+        return True
+    h2 = float(np.linalg.norm(H, 2)) ** 2
+    if P_in.size and h2 * float(np.linalg.norm(P_in, 2)) > 1e4 * float(np.max(np.abs(S))):
+        return True
+    try:
+        lam = float(np.min(np.linalg.eigvalsh((S + S.T) / 2.0)))
+    except Exception:  # noqa: BLE001
+        return True
+    return lam < 1e-9 * h2 * pmax_run
+
+
 class _Track:
     """forwards to the real python filter; remembers the largest covariance/state magnitude seen along a tick"""
 
@@ -452,10 +470,12 @@ class _Track:
         self.ref, self.names = ref, list(names)
         self.pe, self.config, self.control_size = pe, pe.config, pe.control_size
         self.pmax = self.xmax = 0.0
+        self.pmax_run = 0.0
         self.calls = 0
         self.singular = False
 
     def note(self, out):
+        self.pmax_run = max(self.pmax_run, float(np.max(np.abs(out[1].data))) if out[1].data.size else 0.0)
         self.xmax = max(self.xmax, float(np.max(np.abs(out[0].data))) if out[0].data.size else 0.0)
         self.pmax = max(self.pmax, float(np.max(np.abs(out[1].data))) if out[1].data.size else 0.0)
         return out
@@ -477,7 +497,7 @@ class _Track:
                 x_ = {nm: float(state.data[j, 0]) for j, nm in enumerate(self.names)}
                 P_ = np.array(covariance.data, dtype=float)
                 _hx, H_, S_ = self.ref.sensor(sensor_key, x_, P_)
-                if S_.size and (not np.all(np.isfinite(S_)) or float(np.linalg.cond(S_)) > ekfw.GUARD_COND or float(np.linalg.norm(H_, 2)) ** 2 * float(np.linalg.norm(P_, 2)) > 1e4 * float(np.max(np.abs(S_)))):
+                if _singular_S(H_, S_, P_, self.pmax_run):
                     self.singular = True
             except Exception:  # noqa: BLE001
                 self.singular = True
@@ -507,6 +527,7 @@ def _lockstep(schedule, leg, res):
     st = pe.State(**{s: xf(v) for s, v in init["state"].items()})
     cov = pe.Covariance.from_data(np.array([[xf(v) for v in row] for row in init["covariance"]], dtype=float))
     t0 = xf(init["time"])
+    pmax_run = float(np.max(np.abs(cov.data))) if cov.data.size else 0.0  # the largest covariance entry seen so far in this run
     lines = []
     if C:
         lines.append("CAL " + " ".join(fx(xf(d["calibration_map"][c])) for c in C))
@@ -534,6 +555,7 @@ def _lockstep(schedule, leg, res):
                         gain = 1.0
                     expect.append(("predict", i, out, {"P_in": np.array(cov.data, dtype=float), "gain": gain}))
                     st, cov = out
+                    pmax_run = max(pmax_run, float(np.max(np.abs(cov.data))) if cov.data.size else 0.0)
                     mf = None
                 elif op["op"] == "update":
                     key = op["sensor"]
@@ -544,7 +566,7 @@ def _lockstep(schedule, leg, res):
                     u = ref.update(key, x_in, P_in, {r: xf(op["values"][r]) for r in rn}, k)
                     lines.append(f"UPDATE {sensors.index(key)} {_sv_line(S, x_in, P_in)} " + " ".join(fx(xf(op["values"][r])) for r in rn))
                     unchanged = out[0].data.tobytes() == st.data.tobytes() and out[1].data.tobytes() == cov.data.tobytes()
-                    expect.append(("update", i, out, {"inn": np.array(pe.innovations[key]), "unchanged": unchanged, "u": u, "m": len(rn), "P_in": P_in, "z": [xf(op["values"][r]) for r in rn], "pmax": float(np.max(np.abs(P_in))) if P_in.size else 0.0,
+                    expect.append(("update", i, out, {"inn": np.array(pe.innovations[key]), "unchanged": unchanged, "u": u, "m": len(rn), "P_in": P_in, "z": [xf(op["values"][r]) for r in rn], "pmax_run": pmax_run, "pmax": float(np.max(np.abs(P_in))) if P_in.size else 0.0,
                                                       "xmax": (max(abs(v) for v in x_in.values()) + (float(np.max(np.abs(u["K"] @ u["inn"]))) if (u is not None and u["K"].size) else 0.0))}))
                     st, cov = out
                     mf = None
@@ -560,6 +582,7 @@ def _lockstep(schedule, leg, res):
                     readings = [StampedReading(xf(r["t"]), r["sensor"], **{q: xf(v) for q, v in r["values"].items()}) for r in op["readings"]]
                     kw = {"control": ctl} if U else {}
                     before = (mf.current_time, mf.state, mf.covariance)
+                    track.pmax_run = max(track.pmax_run, pmax_run)
                     out = mf.tick(xf(op["t_out"]), readings=readings if (readings or op["has_list"]) else None, **kw)
                     # sensitivity of this tick to a 1e-12 relative perturbation of the held state (chaotic models amplify the
                     # few-ulp differences between two correct implementations; the comparison allows 5% of this amplification)
@@ -590,6 +613,7 @@ def _lockstep(schedule, leg, res):
                     track.pmax = track.xmax = 0.0
                     track.calls = 0
                     track.singular = False
+                    pmax_run = max(pmax_run, track.pmax_run)
                     st, cov = mf.state, mf.covariance  # what the python runtime holds (direct ops continue from there)
                     if readings:
                         held_t = xf(op["readings"][-1]["t"])
@@ -624,9 +648,11 @@ def _compare(schedule, expect, out_lines, res, n, S):
         return None
 
     carry = 0.0  # state difference already present at the end of the previous tick of the same persistent C++ managed filter
+    diverged = False
     for kind, i, out, extra in expect:
         if kind == "newmf":
             carry = 0.0
+            diverged = False
             continue
         if kind == "predict":
             r = nxt("R")
@@ -645,6 +671,15 @@ def _compare(schedule, expect, out_lines, res, n, S):
             if r is None or dline is None or acc is None or named is None:
                 raise RuntimeError("driver output truncated")
             xs, Ps = _parse_sv(r, n)
+            u = extra["u"]
+            P_in = extra["P_in"]
+            if u is not None and _singular_S(u["H"], u["S"], P_in, extra.get("pmax_run", 0.0)):
+                # domain guard (same as the python world): S is numerically singular (e.g. an exact, zero-noise reading fused
+                # twice) -- two correct implementations legitimately differ on this step (up to NaN on one side); both are
+                # re-synchronised after it
+                res.stats["update"] += 1
+                res.stats["probe:update_not_compared_singular_S"] += 1
+                continue
             # named accessors on the C++ side must address the same slots as the by-name API on the python side
             zin = extra["z"]
             if [float.fromhex(v) for v in acc] != zin:
@@ -657,12 +692,6 @@ def _compare(schedule, expect, out_lines, res, n, S):
             cpp_unchanged = dline[0] == "1"
             u = extra["u"]
             res.stats["update"] += 1
-            P_in = extra["P_in"]
-            if u is not None and (u["condS"] > ekfw.GUARD_COND or not np.all(np.isfinite(u["S"])) or (P_in.size and float(np.linalg.norm(u["H"], 2)) ** 2 * float(np.linalg.norm(P_in, 2)) > 1e4 * float(np.max(np.abs(u["S"]))))):
-                # domain guard (same as the python world): S is numerically singular (e.g. an exact, zero-noise reading fused
-                # twice) -- two correct implementations legitimately differ on this step; both are re-synchronised after it
-                res.stats["probe:update_not_compared_singular_S"] += 1
-                continue
             # stored innovation
             if inn and inn[0] != "none":
                 ci = np.array([float.fromhex(v) for v in inn]).reshape(-1, 1)
@@ -713,9 +742,21 @@ def _compare(schedule, expect, out_lines, res, n, S):
             res.stats[f"probe:tick_readings={min(extra['n'], 3)}"] += 1
             if extra.get("singular_S"):
                 res.stats["probe:tick_not_compared_singular_S"] += 1
+                diverged = True
+            elif diverged:
+                # the two persistent managed filters run on from their OWN estimates, and those already differed by more than
+                # a tenth of the tolerance after an earlier tick of this pair (excused there: chaotic amplification, singular S);
+                # what the difference does in later ticks says nothing about either implementation. Direct operations and the
+                # next managed-filter pair are re-synchronised and compared again.
+                res.stats["probe:tick_not_compared_filters_diverged_earlier"] += 1
             else:
                 _cmp_sv(res, "C07", "tick", i, (out.state, out.covariance), xs, Ps, extra["pmax"], extra["xmax"], extra["sens"] + (carry,))
             carry = float(np.max(np.abs(xs - out.state.data))) if xs.size else 0.0  # the two managed filters run on from their own estimates
+            carry_P = float(np.max(np.abs(Ps - out.covariance.data))) if Ps.size else 0.0
+            if not (carry <= 0.1 * TOL * (1.0 + (float(np.max(np.abs(xs))) if xs.size else 0.0)) and carry_P <= 0.1 * TOL * (1.0 + (float(np.max(np.abs(Ps))) if Ps.size else 0.0))):
+                diverged = True
+            if os.environ.get("FSIM_DEBUG"):
+                print("DBG tick", i, "carry", carry, carry_P, "xmax", extra["xmax"], extra["pmax"], "sens", extra["sens"], "diverged", diverged, "singular", extra.get("singular_S"), file=sys.stderr)
             if h[0] != "1":
                 xb, Pb = _parse_sv(bh, n)
                 res.add("C12", "tick_vs_by_hand", f"C12:cpp:tick_vs_by_hand:{combo}", i, f"tick == by-hand replay of the logged calls, bit for bit: {xb.T.tolist()}", f"tick returned {xs.T.tolist()}", "cpp")
